@@ -65,11 +65,19 @@ ROTATIONS = [
 def atoms_of(case):
     """Flat list of atom dicts in canonical order with a stable tag."""
     atoms = []
+    prev = None     # (chain, effective resid, run length of twins)
     for ridx, res in enumerate(case['residues']):
+        # a residue may share the residue number of the one before it and be told apart by an insertion code only (52, 52A)
+        if res.get('twin') and prev is not None and prev[0] == res['chain']:
+            resid, run = prev[1], prev[2] + 1
+            icode = 'ABCDEFGH'[min(run - 1, 7)]
+        else:
+            resid, run, icode = res['resid'], 0, None
+        prev = (res['chain'], resid, run)
         for bidx, bead in enumerate(res['beads']):
             atoms.append({
-                'tag': (ridx, bidx), 'ridx': ridx,
-                'atomname': bead['name'], 'resname': res['resname'], 'resid': res['resid'],
+                'tag': (ridx, bidx), 'ridx': ridx, 'icode': icode,
+                'atomname': bead['name'], 'resname': res['resname'], 'resid': resid,
                 'old_resid': res.get('old_resid'), 'chain': res['chain'],
                 'flag': bead['flag'], 'pos': tuple(bead['pos']), 'nan': bead.get('nan', False),
             })
@@ -96,6 +104,8 @@ def build(case, order=None, rot=0, shift=(0, 0, 0), key0=0, keystep=1, ff=None):
                  'flag': a['flag'], 'position': pos}
         if a['old_resid'] is not None:
             attrs['_old_resid'] = a['old_resid']
+        if a.get('icode'):
+            attrs['insertion_code'] = a['icode']
         if a['chain'] is None:
             del attrs['chain']
         mol.add_node(key, **attrs)
@@ -373,6 +383,8 @@ def run(case):
         classes.add('tie')
     if must:
         classes.add('has-bonds')
+    if any(a.get('icode') for a in atoms):
+        classes.add('residues-told-apart-by-insertion-code')
     flags = [selected(case, a) for a in atoms]
     nsel = sum(flags)
     irregular = 0 < nsel < len(atoms) and flags != sorted(flags, reverse=True)
@@ -413,6 +425,7 @@ def strategy(tier):
                     'chain': st.just(ch[i]), 'resid': st.just(i + 1), 'resname': st.sampled_from(['ALA', 'GLY', 'LYS']),
                     'old_resid': st.one_of(st.none(), st.integers(1, 12)),
                     'gap_before': st.sampled_from([False, False, False, False, True]),
+                    'twin': st.sampled_from([False] * 7 + [True]),
                     'beads': beads,
                 }))
             return st.tuples(*items).map(list)
